@@ -368,11 +368,34 @@ def classify_stderr(text):
     return reps
 
 
+MEM_LIMIT_MB = int(os.environ.get('VERIF_MEM_MB', '6000'))
+
+
+def _limit_as():
+    # contain runaway allocations of a broken tree (e.g. a cycle-space dimension that wrapped around): the case then dies with
+    # bad_alloc and is reported as a crash instead of exhausting the machine
+    import resource
+    try:
+        resource.setrlimit(resource.RLIMIT_AS, (MEM_LIMIT_MB * 2 * 1024 * 1024, MEM_LIMIT_MB * 2 * 1024 * 1024))
+    except (ValueError, OSError):
+        pass
+
+
+def _limit_env(env, flav):
+    e = dict(env or os.environ)
+    if flav == 'asan':
+        e['ASAN_OPTIONS'] = (e.get('ASAN_OPTIONS', '') + ':hard_rss_limit_mb=%d:allocator_may_return_null=0' % MEM_LIMIT_MB).lstrip(':')
+    elif flav == 'tsan':
+        e['TSAN_OPTIONS'] = (e.get('TSAN_OPTIONS', '') + ':hard_rss_limit_mb=%d' % MEM_LIMIT_MB).lstrip(':')
+    return e
+
+
 def run_chunk(agg, cmd_prefix, mode, seed, a, b, opts, env, timeout, source, max_samples, hang_is_violation, wrapper=None, san_logs=None):
     """run cases [a,b) in one process; on a crash attribute it to the last begun case and resume after it"""
     cur = a
     retried_hang_at = None
     parts = cmd_prefix[0].split(os.sep)
+    flav = parts[-2] if len(parts) >= 2 else ''
     rerun = dict(kind='harness', harness=parts[-1].rsplit('-', 1)[0], flavour=parts[-2], mode=mode, seed=seed, opts=opts or {}, env={k: v for k, v in (env or {}).items() if k.endswith('SAN_OPTIONS')}, wrapper=wrapper or [])
     while cur < b:
         cmd = list(wrapper or []) + list(cmd_prefix) + ['--mode', mode, '--seed', str(seed), '--from', str(cur), '--to', str(b), '--samples', str(max_samples)]
@@ -380,7 +403,8 @@ def run_chunk(agg, cmd_prefix, mode, seed, a, b, opts, env, timeout, source, max
             cmd += ['--opt', '%s=%s' % (k, v)]
         t0 = time.time()
         try:
-            p = subprocess.Popen(cmd, stdout=subprocess.PIPE, stderr=subprocess.PIPE, env=env, text=True, errors='replace')
+            p = subprocess.Popen(cmd, stdout=subprocess.PIPE, stderr=subprocess.PIPE, env=_limit_env(env, flav), text=True, errors='replace',
+                                 preexec_fn=_limit_as if flav in ('plain', 'shim', 'mpi', 'cov') and not wrapper else None)
         except OSError as e:
             with agg.lock:
                 agg.failures.append('cannot start %s: %s' % (cmd[0], e))
